@@ -117,6 +117,20 @@ def run (kv : KV) : String :=
     "upgrade:" ++ b01 ctx.upgrade.isSome,
     "ctor:" ++ get kv "ctor",
     "declok:" ++ b01 declOk ]
+  -- agreement projected on the observables each property talks about
+  let mh := model.bind outHeaders
+  let aC05 := unmodelled || (match mh, oh with
+    | some (_, a), some (_, b) => Spec.framedOf a == Spec.framedOf b
+    | none, none => true
+    | _, _ => false)
+  let aC19 := unmodelled || (gettersAgree && (match mh, oh with
+    | some (_, a), some (_, b) => a == b
+    | none, none => true
+    | _, _ => false))
+  let proj (o : Bytes) := (Client.decode ctx.noBody o).map (fun (m, rest) => (m.status, m.body, m.kind, rest))
+  let aC04 := unmodelled || (match model with
+    | some m => proj m == proj out
+    | none => true)
   let diff :=
     if !gettersAgree then
       "getters model=(" ++ toString b.resp.status ++ "," ++ showOptNat b.resp.dataLength ++ "," ++ hexHeaders b.resp.headers ++ ")"
@@ -124,6 +138,7 @@ def run (kv : KV) : String :=
     else "-"
   "res id=" ++ get kv "id" ++ " agree=" ++ b01 (gettersAgree && printAgree)
     ++ " skip=" ++ b01 unmodelled
+    ++ " aC04=" ++ b01 aC04 ++ " aC05=" ++ b01 aC05 ++ " aC19=" ++ b01 aC19
     ++ " C04=" ++ tri c04app c04
     ++ " C05=" ++ tri (c05app && c05.isSome) (c05.getD false)
     ++ " C19=" ++ tri c19app c19
